@@ -123,10 +123,10 @@ def install(M):
                 if o is None:
                     raise AnalysisError(f'2-D {name}: row result not modelled', node)
                 outs.append(El(o[1], bool(o[2])))
-            dt = 'b1' if name in ('any', 'all') else ('f8' if name in ('mean', 'std') else v.dtype)
+            dt = 'b1' if name in ('any', 'all') else ('f8' if name in ('mean', 'std') else 'i8' if name == 'count' else v.dtype)
             return Vec.fresh(outs, kind=v.kind, dtype=dt)
         return f
-    for nm in ('any', 'all', 'max', 'min', 'sum', 'mean', 'std', 'ptp'):
+    for nm in ('any', 'all', 'max', 'min', 'sum', 'mean', 'std', 'ptp', 'count'):
         M.methods[(Vec2, nm)] = reduce2(nm)
 
     def np_reduce(name, orig):
